@@ -504,6 +504,8 @@ func (ctx *Ctx) cmpLC(lc lc, path []byte, cond op, right []byte) bool {
 // Range loop method to evaluate expressions like:
 // {% for k, v := range user.History %}...{% endfor %}
 func (ctx *Ctx) rloop(path []byte, node *node, tpl *Tpl, w io.Writer) {
+	// An error left by an earlier tag (or an earlier render) is not the error of this loop.
+	ctx.Err = nil
 	if ctx.chQB {
 		path = ctx.replaceQB(path)
 	}
